@@ -194,6 +194,8 @@ def run(ctx):
     ctx.explanation = __doc__
     ctx.rule = "instances = negation facts, 11 collection cases × 2 operators, emptiness/short-circuit path facts, provenance sinks; non-trivial = specialisation, dominance, path existence"
     ctx.trusted = ["std adaptor models", "C06 (truthiness table)", "str::chars iterates Unicode scalar values"]
+    from . import manifest as _MF
+    _MF.same_library_clause(ctx, "K6.number-model")
     cfgs = ["default"] if ctx.tier == "quick" else ["default", "python", "wasm"]
     for cfg in cfgs:
         facts = ctx.facts(cfg)
